@@ -38,6 +38,9 @@ def cases(tier, rng):
         if tier == 'thorough':
             for L in range(1, 2 * 8 * B + 9):
                 yield {'k': 'blake', 'size': size, 'n': (L + 7) // 8, 'L': L, 'sur': L % 2, 'salt': 'rand', 'pat': 'rand', 'single': False}
+        for P in (0, 8 * B):
+            for tail in (B + 1, 2 * B, 2 * B + 1, 3 * B + 5):
+                yield {'k': 'preset-blake', 'size': size, 'preset': P, 'nblk': 1 + tail % 2, 'tail': tail}
         top = 32 if size <= 256 else 64
         for kb in (-2, -1, 0, 1):
             for tail in (0, 1, B - w // 4 - 1, B - 1):
@@ -58,6 +61,9 @@ def cases(tier, rng):
                     yield {'k': 'blake2', 'size': size, 'n': n, 'pc': pc, 'v': v, 'pat': 'rand', 'single': False}
         for reps in range(4 if tier == 'quick' else 200):
             yield {'k': 'blake2', 'size': size, 'n': 'rand', 'pc': 'all-rand', 'pat': 'rand', 'single': False}
+        for P in (0, B, (1 << 32) - B):
+            for tail in (B + 1, 2 * B, 2 * B + 1, 3 * B + 5):
+                yield {'k': 'preset-blake2', 'size': size, 'preset': P, 'nblk': 1 + tail % 2, 'tail': tail}
         top = 32 if size == 256 else 64
         for kb in (-2, -1, 0, 1):
             for tail in (1, B // 2, B):
